@@ -48,6 +48,19 @@ CLAIMED = {
          'pcm_offset <= pos established; every failing exit after the handle was touched has dumped position and decoder. '
          'Reachability of targets and landing precision are not decided.',
          'Trusted: clang 14 front end; K3 effect table for externals; interval abstraction.', 'DESIGN.md 4/C08'),
+ 'C03': ('error-discipline (def-use) analysis of fallible decode calls + CFG path rules for the open failure paths (typestate and link-table rules are added as they are built)',
+         'Every call in vorbisfile.c to a decode/set-up function that can fail has its result observed on all paths; failed '
+         'opens detach the data source before ov_clear on every path and the close callback has one guarded site. These are '
+         'necessary conditions of memory safety of the handle (a rejected packet never reaches the accumulator; a failed open '
+         'never closes the source). Loop termination over arbitrary page structure is not decided.',
+         'Trusted: clang 14 front end; libogg contract for cleared stream states.', 'DESIGN.md 4/C03'),
+ 'C12': ('call-graph-derived I/O-capable and error-carrying function sets + def-use observation analysis + path rules with interval/excluded-constant abstraction of error codes',
+         'Every result of an I/O-capable call is observed; where a failure is tested and the edge runs to a return the returned '
+         'value is negative (documented EOF mappings excepted); the close callback has one guarded site and failed opens '
+         'detach the source first; the sync layer is given exactly the positive count the read callback returned; the seek '
+         'helper changes its bookkeeping only after a successful callback. Behaviour after the fault stops is not decided.',
+         'Trusted: clang 14 front end; callbacks modelled as external events; OV_EREAD distinguishable from OV_EOF/OV_HOLE by '
+         'the excluded-constant domain.', 'DESIGN.md 4/C12'),
 }
 
 NA = {
